@@ -230,12 +230,12 @@ func (c *Check) Finish(verifDir string, seed int, assumptions []string) int {
 			samples = append(samples, o)
 		}
 	}
-	var fl []string
+	fl := []string{}
 	for f := range c.funcs {
 		fl = append(fl, f)
 	}
 	sort.Strings(fl)
-	var tb []string
+	tb := []string{}
 	for t := range c.Trusted {
 		tb = append(tb, t)
 	}
@@ -257,9 +257,9 @@ func (c *Check) Finish(verifDir string, seed int, assumptions []string) int {
 			"functions_analysed":  fl,
 			"packages_loaded":     c.P.NPkgs,
 			"call_sites":          c.sites,
-			"positive_controls":   c.Controls,
+			"positive_controls":   nonNil(c.Controls),
 			"trusted_base":        tb,
-			"notes":               c.Notes,
+			"notes":               nonNil(c.Notes),
 			"checker_cmd":         "bin/bifrost-verify -prop " + c.Prop + " -tier " + c.Tier,
 			"exhaustive":          false,
 		}}
@@ -287,3 +287,10 @@ func Short(s string, n int) string {
 
 // Start is the process start time (wall_s includes loading).
 var Start = time.Now()
+
+func nonNil(s []string) []string {
+	if s == nil {
+		return []string{}
+	}
+	return s
+}
